@@ -67,6 +67,11 @@ AffineImage(R, L, S) ==
          R[3][1] * L[1] + R[3][2] * L[2] + R[3][3] * L[3] + S[3]>>
 ActT(gt, s) == LET im == gt.img[s[1]] IN <<im[1], AffineImage(gt.R, s[2], im[2])>>
 ActSeq(gt, q) == [i \in 1..Len(q) |-> ActT(gt, q[i])]
+\* the table form agrees with the definition (checked for every case on two generic lattice vectors per atom)
+AffineLemma(w, G) ==
+  \A g \in G : \A gt \in {[R |-> g[1], img |-> [a \in AtomSet(w) |-> ActPos(w, g[1], g[2], a, VZero(w.dim))]]} :
+    \A a \in AtomSet(w) : \A L \in {[k \in 1..w.dim |-> k], [k \in 1..w.dim |-> 2 - 3 * k]} :
+        ActT(gt, <<a, L>>) = ActPos(w, g[1], g[2], a, L)
 \* reversal of a transition: the ends are exchanged; for "vts" an occupied final site becomes an occupied initial site
 Reversal(q, kind) ==
   [i \in 1..Len(q) |-> IF i = 1 THEN q[2] ELSE IF i = 2 THEN q[1]
@@ -87,11 +92,19 @@ BoxOK(w, cut2, B) ==
 Nbrs(w, cut2, excl, B, s0) ==
   {s \in Allowed(w, excl) \X Box(w.dim, B) : s # s0 /\ Within(w, cut2, s0, s)}
 PairwiseWithin(w, cut2, T) == \A s \in T, t \in T : s = t \/ Within(w, cut2, s, t)
+\* all subsets of N with at most m elements that are pairwise within the cutoff.  "Pairwise within" is inherited by
+\* subsets, so every such set of size n is a set of size n-1 of the same kind plus one element within the cutoff of
+\* all of them: the family is built level by level (m <= 3 here; FiniteSetsExt!kSubset is limited to small N).
+RECURSIVE WithinSets(_, _, _, _)
+WithinSets(w, cut2, N, m) ==
+  IF m = 0 THEN {{}}
+  ELSE LET P == WithinSets(w, cut2, N, m - 1)
+           top == {T \in P : Cardinality(T) = m - 1}
+       IN P \cup UNION {{T \cup {s} : s \in {s \in N \ T : \A t \in T : Within(w, cut2, s, t)}} : T \in top}
 RawFrom(w, cut2, excl, B, K, a0) ==
   LET s0 == <<a0, VZero(w.dim)>>
       N == Nbrs(w, cut2, excl, B, s0)
-      top == IF Cardinality(N) < K - 1 THEN Cardinality(N) ELSE K - 1
-  IN UNION {{{s0} \cup T : T \in {U \in kSubset(n, N) : PairwiseWithin(w, cut2, U)}} : n \in 0..top}
+  IN {{s0} \cup T : T \in WithinSets(w, cut2, N, K - 1)}
 AllRaw(w, cut2, excl, B, K) == UNION {RawFrom(w, cut2, excl, B, K, a0) : a0 \in Allowed(w, excl)}
 \* a set of sites as a raw plain cluster (any order)
 AsSeq(S) == SetToSeq(S)
